@@ -233,35 +233,88 @@ let foreign_of = function
   | "interpolation" -> FInterpolation | "special" -> FSpecial | "statistics" -> FStatistics | "sample" -> FSample
   | o -> raise (Ctor ("MODELERR unknown_foreign_" ^ o))
 
+(* K step_1 .. step_K on the live objects (the body of a `life` case).  The calls that change an object are collected and run,
+   in the order they are made, by the extracted life_run (the fold of life_step) before the next question is asked and at the end *)
+let life_body r =
+  let k = integer r in
+  let pending = ref [] in
+  let flush () =
+    if !pending <> [] then begin
+      let (ms, vs) = ok_or_raise (life_run fops (!lms, !lvs) (List.rev !pending)) in
+      lms := ms; lvs := vs; pending := []
+    end in
+  for _ = 1 to k do
+    match word r with
+    (* an operand that cannot be constructed ends the session when its call is reached: the calls before it run first *)
+    | "m" -> let j = integer r in let mu = (try mmut_of r j with Ctor e -> flush (); raise (Ctor e)) in
+             pending := LM (n j, mu) :: !pending
+    | "v" -> let j = integer r in let mu = (try vmut_of r j with Ctor e -> flush (); raise (Ctor e)) in
+             pending := LV (n j, mu) :: !pending
+    | "o" -> flush (); let o = word r in dispatch o r; put_w "|"
+    | o -> raise (Ctor ("MODELERR unknown_life_step_" ^ o))
+  done;
+  flush ()
+
+(* `made` cases: one producer = `kind L tok_1 .. tok_L`; the value the model gives the returned object becomes the next live
+   matrix / vector.  Producers outside the model (Inverse, Rotation_Matrix, QR factors, Round, Spherical_Coordinates): UNMODELLED,
+   these cases are decided by the predicates of checks/C04.py alone. *)
+let producer r =
+  let p = word r in ignore (integer r);
+  let pm x = lms := !lms @ [x] in
+  let pv x = lvs := !lvs @ [x] in
+  match p with
+  | "tr" -> let a = rd_mat r in pm (ok_or_raise (transpose fops a))
+  | "sb" -> let a = rd_mat r in let i = integer r in let j = integer r in pm (ok_or_raise (sub_matrix_int a (z_of_int i) (z_of_int j)))
+  | "ou" -> let u = rd_vec r in let v = rd_vec r in pm (outer fops u v)
+  | "id" -> let k = integer r in pm (identity fops (n k))
+  | "mp" -> let a = rd_mat r in let b = rd_mat r in pm (ok_or_raise (m_op_mul fops a b))
+  | "pr" -> let a = rd_mat r in let b = rd_mat r in pm (ok_or_raise (m_product fops a b))
+  | "pl" -> let a = rd_mat r in let b = rd_mat r in pm (ok_or_raise (m_op_plus fops a b))
+  | "pn" -> let a = rd_mat r in let b = rd_mat r in pm (ok_or_raise (m_plus fops a b))
+  | "mi" -> let a = rd_mat r in let b = rd_mat r in pm (ok_or_raise (m_op_minus fops a b))
+  | "ms" -> let a = rd_mat r in let x = num r in pm (ok_or_raise (m_op_mul_s fops a x))
+  | "sm" -> let x = num r in let a = rd_mat r in pm (ok_or_raise (s_mul_m fops x a))
+  | "dv" -> let a = rd_mat r in let x = num r in pm (ok_or_raise (m_op_div fops a x))
+  | "fl" -> let a = integer r in let b = integer r in let e = num r in pm (mat_fill (n a) (n b) e)
+  | "dg" -> let d = list r in pm (mat_diag fops d)
+  | "cp" -> let a = rd_mat r in pm (m_copy a)
+  | "hs" -> let a = plain_mat r in let k = integer r in pm (steps mat_step r a k)
+  | "bk" ->
+      let gr = integer r in
+      let g = List.init gr (fun _ -> let gc = integer r in List.init gc (fun _ -> rd_mat r)) in
+      pm (ok_or_raise (mat_block fops g))
+  | "rr" -> let a = rd_mat r in let i = integer r in pv (ok_or_raise (return_row a (n i)))
+  | "rc" -> let a = rd_mat r in let i = integer r in pv (ok_or_raise (return_column fops a (n i)))
+  | "mv" -> let a = rd_mat r in let v = rd_vec r in pv (ok_or_raise (m_op_mul_v fops a v))
+  | "vm" -> let v = rd_vec r in let a = rd_mat r in pv (ok_or_raise (v_mul_m fops v a))
+  | "cr" -> let u = rd_vec r in let v = rd_vec r in pv (ok_or_raise (vcross fops u v))
+  | "nd" -> let u = rd_vec r in pv (ok_or_raise (v_normalized fops u))
+  | "sc" -> let u = rd_vec r in let x = num r in pv (vscale fops u x)
+  | "vc" -> let u = rd_vec r in pv (v_copy u)
+  | "iv" | "ro" | "qq" | "qr" | "rn" | "sp" -> raise (Ctor "UNMODELLED")
+  | o -> raise (Ctor ("MODELERR unknown_producer_" ^ o))
+
+let made r =
+  let np = integer r in
+  for _ = 1 to np do producer r done;
+  let ms0 = !lms and vs0 = !lvs in
+  Buffer.clear buf; first := true;
+  let s = (try life_body r; Buffer.contents buf with Ctor e -> e) in
+  Buffer.clear buf; first := true;
+  put_w s; put_w "&&"; put_w s; put_w "&&";
+  List.iter put_mat ms0; List.iter put_vec vs0
+
 let handler_inner r =
   hist := false; lms := []; lvs := [];
   let op = word r in
   let op = if op = "hist" then (hist := true; word r) else op in
-  if op <> "life" then dispatch op r
+  if op = "made" then made r
+  else if op <> "life" then dispatch op r
   else begin
     (* life NM T_1 .. T_NM NV L_1 .. L_NV K step_1 .. step_K ;  step = m k <mutator> | v k <mutator> | o <op> <args> *)
     let nm = integer r in lms := List.init nm (fun _ -> plain_mat r);
     let nv = integer r in lvs := List.init nv (fun _ -> plain_vec r);
-    let k = integer r in
-    (* the calls that change an object are collected and run, in the order they are made, by the extracted life_run
-       (the fold of life_step) before the next question is asked and at the end of the session *)
-    let pending = ref [] in
-    let flush () =
-      if !pending <> [] then begin
-        let (ms, vs) = ok_or_raise (life_run fops (!lms, !lvs) (List.rev !pending)) in
-        lms := ms; lvs := vs; pending := []
-      end in
-    for _ = 1 to k do
-      match word r with
-      (* an operand that cannot be constructed ends the session when its call is reached: the calls before it run first *)
-      | "m" -> let j = integer r in let mu = (try mmut_of r j with Ctor e -> flush (); raise (Ctor e)) in
-               pending := LM (n j, mu) :: !pending
-      | "v" -> let j = integer r in let mu = (try vmut_of r j with Ctor e -> flush (); raise (Ctor e)) in
-               pending := LV (n j, mu) :: !pending
-      | "o" -> flush (); let o = word r in dispatch o r; put_w "|"
-      | o -> raise (Ctor ("MODELERR unknown_life_step_" ^ o))
-    done;
-    flush ()
+    life_body r
   end
 
 let handler r =
